@@ -234,6 +234,8 @@ class AuxNew(AuxBase):
 
         def fn():
             v = auxm.to_impl(w, t, op["cv"], node_objects=op.get("node_objects", True))
+            if op.get("as_bytes") and op["type"] == "sequence<uint8_t>":
+                v = bytes(v) if op["as_bytes"] == "bytes" else bytearray(v)  # a bytes object IS a sequence of uint8
             w.objs[op["c"]].aux_data[op["name"]] = g.AuxData(v, op["type"])
 
         out = capture(fn)
@@ -395,7 +397,10 @@ class AuxAssign(AuxBase):
         ad = w.objs[op["c"]].aux_data.get(op["name"])
 
         def fn():
-            ad.data = auxm.to_impl(w, t, op["cv"])
+            v = auxm.to_impl(w, t, op["cv"])
+            if op.get("as_bytes") and tbl["type"] == "sequence<uint8_t>":
+                v = bytes(v) if op["as_bytes"] == "bytes" else bytearray(v)
+            ad.data = v
 
         out = capture(fn)
         out.value = None
@@ -594,9 +599,12 @@ def gen_aux(w, r, allow_unknown=False):
             return {"op": "aux_new", "c": c, "name": name, "type": tn, "cv": auxm.gen_value(w, r, t), "node_objects": r.random() < 0.7}
         if y < 0.45:
             # an integer sequence (can be widened, extended, or spoilt with an out-of-range element)
-            tn = "sequence<%s>" % r.choice(["uint8_t", "int8_t", "uint16_t", "int32_t", "uint64_t"])
+            tn = "sequence<%s>" % r.choice(["uint8_t", "uint8_t", "int8_t", "uint16_t", "int32_t", "uint64_t"])
             t = R.parse_type(tn)
-            return {"op": "aux_new", "c": c, "name": name, "type": tn, "cv": auxm.gen_value(w, r, t)}
+            op = {"op": "aux_new", "c": c, "name": name, "type": tn, "cv": auxm.gen_value(w, r, t)}
+            if tn == "sequence<uint8_t>" and r.random() < 0.5:
+                op["as_bytes"] = r.choice(["bytes", "bytearray"])
+            return op
         t = auxm.gen_type(r, depth=w.cfg.get("aux_depth", 3), allow_variant=w.cfg.get("aux_variant", True), allow_unordered=w.cfg.get("aux_unordered", True))
         return {"op": "aux_new", "c": c, "name": name, "type": R.type_str(t), "cv": auxm.gen_value(w, r, t), "node_objects": r.random() < 0.7}
     name = sorted(tables)[r.randrange(len(tables))]
@@ -613,7 +621,10 @@ def gen_aux(w, r, allow_unknown=False):
             return None
         if r.random() < w.cfg.get("p_bad_aux", 0.0):
             return {"op": "aux_assign_bad", "c": c, "name": name, "k": r.randrange(2)}
-        return {"op": "aux_assign", "c": c, "name": name, "cv": auxm.gen_value(w, r, t)}
+        op = {"op": "aux_assign", "c": c, "name": name, "cv": auxm.gen_value(w, r, t)}
+        if tbl["type"] == "sequence<uint8_t>" and r.random() < 0.5:
+            op["as_bytes"] = r.choice(["bytes", "bytearray"])
+        return op
     if x < 0.95:
         t = R.parse_type(tbl["type"])
         wt = widen_some_leaf(r, t)
@@ -625,3 +636,67 @@ def gen_aux(w, r, allow_unknown=False):
             return {"op": "aux_retype", "c": c, "name": name, "type": tbl["type0"]}
         return {"op": "aux_retype", "c": c, "name": name, "type": tbl["type"]}
     return {"op": "aux_del", "c": c, "name": name}
+
+
+@register
+class ForeignSerializer(Op):
+    """{"op":"foreign_serializer","name":codec name,"k":i}: ANOTHER client in the same process
+    creates its own gtirb.Serialization() and customises it (the documented extension point):
+    overrides a built-in codec name with a lossy codec, or registers a new name. Nothing that
+    goes through gtirb.AuxData.serializer may notice."""
+
+    name = "foreign_serializer"
+    family = "aux"
+
+    def run(self, w, op):
+        g = w.g
+        ser = g.serialization
+
+        class Lossy(ser.Codec):
+            @staticmethod
+            def decode(raw_bytes, *, serialization=None, subtypes=(), get_by_uuid=None):
+                raw_bytes.read()
+                return "lossy"
+
+            @staticmethod
+            def encode(out, val, *, serialization=None, subtypes=()):
+                out.write(b"?")
+
+        def fn():
+            s = g.Serialization()
+            s.codecs[op["name"]] = Lossy
+            return None
+
+        out = capture(fn)
+        out.value = None
+        return out
+
+    def model(self, w, op, out):
+        w.counters["probe:foreign_serializer_customised"] += 1
+        return Exp("ok", value=None, owner=())
+
+
+@register
+class Repr(Op):
+    """{"op":"repr","label":L}: print / log a node. Observation only: nothing may change
+    (in particular no AuxData table of an IR or Module may count as read afterwards)."""
+
+    name = "repr"
+    family = "observe"
+
+    def labels(self, op):
+        return [(op["label"], None)]
+
+    def touched(self, w, op):
+        return []
+
+    def run(self, w, op):
+        o = w.objs[op["label"]]
+        out = capture(lambda: (repr(o), str(o)))
+        if out.kind == "ok":
+            out.value = "text"
+        return out
+
+    def model(self, w, op, out):
+        w.counters["probe:repr_calls"] += 1
+        return Exp("ok", value="text", owner=())
